@@ -420,9 +420,9 @@ static uint32_t _composite_cp(uint32_t cp, uint32_t cp2) {
     if (likely(cp < UNWIF_COMPLIST_FIRST_LONG)) {
         UNWIF_complist_s *i;
         for (i = (UNWIF_complist_s *)cell; i->nextchar; i++) {
-            if ((uint16_t)cp2 == i->nextchar) {
+            if (cp2 == i->nextchar) {
                 return (uint32_t)(i->composite);
-            } else if ((uint16_t)cp2 < i->nextchar) { /* nextchar is sorted */
+            } else if (cp2 < i->nextchar) { /* nextchar is sorted */
                 break;
             }
         }
